@@ -22,6 +22,7 @@ FLOW_COLS = {"line": {"p_f": "p_from_mw", "q_f": "q_from_mvar", "p_t": "p_to_mw"
              "trafo": {"p_f": "p_hv_mw", "q_f": "q_hv_mvar", "p_t": "p_lv_mw", "q_t": "q_lv_mvar",
                        "i_f": "i_hv_ka", "i_t": "i_lv_ka"}}
 ALTS = (("irwls", {}), ("lp", {}), ("wls_with_zero_constraint", {"zero_injection": "no_inj_bus"}))
+LP_ON = ("none", "all_but_i", "all")
 N_LEVELS = 4
 _BASE = {}
 
@@ -116,10 +117,24 @@ def read_rows(net):
     return out
 
 
+class quiet_stderr:
+    """the LP estimator's solver (SCIP) writes its numerical complaints to the C-level stderr"""
+
+    def __enter__(self):
+        self.saved = os.dup(2)
+        self.null = os.open(os.devnull, os.O_WRONLY)
+        os.dup2(self.null, 2)
+
+    def __exit__(self, *a):
+        os.dup2(self.saved, 2)
+        os.close(self.null)
+        os.close(self.saved)
+
+
 def run_estimate(mnet, algorithm="wls", **kw):
-    """one call of the public estimate() on a copy; -> projected outcome"""
+    """one call of the public estimate() (inputs are not changed by it: C08); -> projected outcome"""
     from pandapower.estimation import estimate
-    net = copy.deepcopy(mnet)
+    net = mnet
     out = {"ok": False, "exc": "none", "acc": True}
     try:
         res = estimate(net, algorithm=algorithm, init="flat", tolerance=1e-8, **kw)
@@ -141,7 +156,7 @@ def z_layout(mnet):
     try:
         import numpy as np
         from pandapower.estimation.state_estimation import StateEstimation
-        net = copy.deepcopy(mnet)
+        net = mnet
         se = StateEstimation(net, 1e-8, 50, algorithm="wls")
         se.estimate(v_start=None, delta_start=None, zero_injection="aux_bus", fuse_buses_with_bb_switch="all",
                     algorithm="wls")
@@ -166,7 +181,8 @@ def z_layout(mnet):
 def bad_data(mnet):
     from pandapower.estimation import chi2_analysis, remove_bad_data
     out = {"ran": True, "rn": 2, "removed": 0, "chi2": 3}
-    net = copy.deepcopy(mnet)
+    net = mnet
+    table = net.measurement.copy(deep=True)
     n0 = len(net.measurement)
     try:
         r = remove_bad_data(net, init="flat")
@@ -174,7 +190,7 @@ def bad_data(mnet):
     except Exception as e:  # noqa
         out["rn_exc"] = type(e).__name__
     out["removed"] = n0 - len(net.measurement)
-    net = copy.deepcopy(mnet)
+    net.measurement = table          # remove_bad_data edits the table in place: restore the spec's table
     try:
         c = chi2_analysis(net, init="flat")
         out["chi2"] = 2 if c is None else (1 if bool(c) else 0)
@@ -191,9 +207,9 @@ def est_only(job):
 
 
 def observe(job):
-    """job = {tpl, lvl, seed, s, rows, observable, alts} -> case without references"""
+    """job = {tpl, lvl, seed, s, rows, observable, cls, alts} -> case without references"""
     base, ok = base_net(job["tpl"], job["lvl"], job["seed"])
-    case = {"tpl": job["tpl"], "lvl": job["lvl"], "seed": job["seed"], "s": job["s"], "table": job["rows"],
+    case = {"tpl": job["tpl"], "lvl": job["lvl"], "seed": job["seed"], "s": job["s"], "table": job["rows"], "cls": job["cls"],
             "pf": dict(project(base, "") if ok else EMPTY, ok=ok)}
     mnet = with_table(base, job["rows"])
     case["rows"] = read_rows(mnet)
@@ -201,9 +217,12 @@ def observe(job):
     case["z"] = z_layout(mnet)
     case["bad"] = bad_data(mnet) if job["observable"] else {"ran": False, "rn": 2, "removed": 0, "chi2": 3}
     case["alts"] = []
-    if job["alts"] and job["observable"]:
+    if job["alts"] and job["observable"] and job["s"]["ord"] == "created" and job["s"]["dup"] == "none":
         for alg, kw in ALTS:
-            r = run_estimate(mnet, algorithm=alg, **kw)
+            if alg == "lp" and job["s"]["red"] not in LP_ON:      # the LP estimator is 5-10x slower than the others
+                continue
+            with quiet_stderr():
+                r = run_estimate(mnet, algorithm=alg, **kw)
             r["alg"] = alg
             case["alts"].append(r)
     return case
@@ -222,6 +241,11 @@ def model_cfg(tier, tpl):
     if tier == "thorough":
         cfg = cfg.replace("MaxV = 1", "MaxV = 2").replace('FlowPats = {"none", "f", "t"}', 'FlowPats = {"none", "f", "t", "ft"}')
         cfg = cfg.replace("Surplus = 0", "Surplus = 2").replace('Dups = {"none", "first", "all"}', 'Dups = {"none", "first", "v", "all"}')
+        cfg = cfg.replace('Reds = {"none", "v_all", "p_inj", "pq_to", "p_from_q_to", "i_from", "all_but_i", "all"}',
+                          'Reds = {"none", "v_all", "p_inj", "q_inj", "pq_from", "pq_to", "p_from_q_to", "i_from", "i_to", "all_but_i", "all"}')
+    if cfg.count("Surplus = 2") + cfg.count("Surplus = 0") != 1 or ("q_inj" in cfg) != (tier == "thorough"):
+        from ..tla import MachineryError
+        raise MachineryError("Estimation.cfg no longer matches the substitutions of model_cfg()")
     return cfg
 
 
@@ -244,7 +268,7 @@ def run(tier, seed, replay=None):
     if replay:
         c = replay["case"]
         job = {"tpl": c["tpl"], "lvl": c["lvl"], "seed": c["seed"], "s": c["s"], "rows": c["table"],
-               "observable": bool(c["bad"]["ran"]), "alts": bool(c["alts"])}
+               "observable": bool(c["bad"]["ran"]), "cls": c["cls"], "alts": bool(c["alts"])}
         case = observe(job)
         for k in ("ref_ord", "ref_red"):
             case[k + "_table"] = c.get(k + "_table", [])
@@ -265,7 +289,8 @@ def run(tier, seed, replay=None):
                 if tier == "thorough":     # one seeded operating point per core (all variants of a core share it)
                     lvl = 1 + random.Random("%s|%s" % (seed, json.dumps(s["core"], sort_keys=True))).randrange(N_LEVELS)
                 jobs.append({"tpl": tpl, "lvl": lvl, "seed": seed, "s": s, "rows": jsonable(st["out"]["rows"]),
-                             "observable": bool(st["out"]["observable"]), "alts": tier == "thorough"})
+                             "observable": bool(st["out"]["observable"]), "alts": tier == "thorough",
+                             "cls": {"critical": not st["out"]["nocritical"], "df": int(st["out"]["df"])}})
         cases = pool_map(observe, jobs, procs=int(os.environ.get("VERIF_C19_PROCS", "16")))
         by = {skey(c["tpl"], c["lvl"], c["s"]): c for c in cases}
         for c in cases:       # the pairs of runs defined by the model's actions
@@ -290,9 +315,13 @@ def run(tier, seed, replay=None):
     for name, k in fails:
         c = cases[k]
         s = c["s"]
-        feat = "tpl=%s,red=%s,dup=%s,ord=%s" % (c["tpl"], s["red"], s["dup"], s["ord"])
+        feat = "red=%s,dup=%s,ord=%s" % (s["red"], s["dup"], s["ord"])
         if name == "C19_AltAlgorithms":
-            feat = "tpl=%s,alg=%s" % (c["tpl"], "+".join(a["alg"] for a in c["alts"] if a["acc"] and a["ok"]))
+            feat = "alg=%s" % "+".join(a["alg"] for a in c["alts"] if a["acc"] and a["ok"])
+        elif name in ("C19_NoBadDataRemoved", "C19_RnTestPasses"):      # classes computed by the spec (out.nocritical, out.df)
+            feat = "critical_measurement" if c["cls"]["critical"] else "no_critical_measurement"
+        elif name == "C19_NoBadDataChi2":
+            feat = "no_degree_of_freedom" if c["cls"]["df"] <= 0 else "df>=1"
         v.violation("C19|%s|%s" % (name, feat), "%s: structure %s level %d: est=%s bad=%s" % (
             name, s, c["lvl"], {"ok": c["est"]["ok"], "exc": c["est"]["exc"]}, c["bad"]), c)
     for name, k in conf:
